@@ -89,5 +89,7 @@ func init() {
 		}
 		long := fmt.Sprintf("0 NOTE %s\n", strings.Repeat("\xc2\xa0y ", c.N(30000, 300000)))
 		c03all(c, long, "long-line")
+		// the command line's decoder options (cmd/gedcom/diff.go)
+		c03CLI(c)
 	}
 }
